@@ -172,6 +172,10 @@ _SQLITE_FLOOR_MOD = (r"FLOOR\(.*1\.0 \*", r"typeof\(", "the floored form x - FLO
 SQL_TEMPLATE_CAVEATS = {
     ("SQLiteModel", "%"): [_SQLITE_PERCENT, _SQLITE_FLOOR_MOD], ("SQLiteModel", "mod"): [_SQLITE_PERCENT, _SQLITE_FLOOR_MOD],
     ("SQLiteModel", "remainder"): [_SQLITE_PERCENT, _SQLITE_FLOOR_MOD],
+    ("SQLiteModel", "as_str"): (r"CAST\(.* AS (VARCHAR|TEXT)\)", r"PRINTF\(|FORMAT\(",
+                                "SQLite's CAST(x AS VARCHAR) prints a REAL with 15 significant digits ('0.333333333333333', '1.0e+20') and a logical expression as 0 / 1; "
+                                "the catalogued meaning, Pandas astype(str), is repr(float) ('0.3333333333333333', '1e+20') and 'True' / 'False' — the texts differ as "
+                                "strings, group keys and join keys (text is not covered by any float tolerance)"),
     ("PostgreSQLModel", "as_int64"): (r"CAST\(.* AS (BIGINT|INTEGER|INT)\)", r"TRUNC\(|FLOOR\(",
                                       "PostgreSQL rounds to nearest when casting a float to an integer type (CAST(2.7 AS BIGINT) = 3, documentation 8.1 / "
                                       "numeric-to-integer casts round); the catalogued meaning, numpy astype(int64), truncates (2): wrap the argument in TRUNC()"),
